@@ -72,6 +72,8 @@ class Emitter:
         self.extern_funcs = collections.OrderedDict()  # C name -> declaration text (modelled std callees)
         self.struct_defs = collections.OrderedDict()
         self.facts = collections.OrderedDict()         # macro -> (C++ expression, C type) computed by g++
+        self.pending_dtors = {}   # function id -> [(local name, destructor C name, this type)] (L-dtor)
+        self.closures = {}        # closure record id -> {captured decl id | 'this': (field name, by_reference)}
         self.leaf_called = set()
         self.site_counter = {}
         self.site_alias = collections.OrderedDict()    # alias C name -> [leaf fn id, leaf key, caller C name, call text]
@@ -277,7 +279,10 @@ class Emitter:
     def use_record(self, rec, spelled=None):
         rid = rec['id']
         disp = self.tu.rec_name.get(rid, rec.get('name', rid))
-        cn = struct_tag(disp if ('<' in disp or '::' in disp) and '?' not in disp else (spelled or disp))
+        if disp.startswith('lambda_') or (spelled or '').startswith('(lambda'):
+            cn = 'S_lambda_' + rid[-8:]
+        else:
+            cn = struct_tag(disp if ('<' in disp or '::' in disp) and '?' not in disp else (spelled or disp))
         if cn in self.struct_defs:
             return cn
         self.struct_defs[cn] = None     # in progress (pointers to self are fine)
@@ -309,6 +314,8 @@ class Emitter:
             if f.get('kind') == 'FieldDecl':
                 ft = self.ctype_of(qt(f))
                 nm = f.get('name') or ('_f%d' % len(members))
+                f['name'] = nm
+                self.tu.decls[f['id']] = f
                 if f.get('isBitfield'):
                     raise ExtractError('bitfield in ' + disp)
                 members.append(self.cdecl(ft, nm) + ';')
@@ -547,6 +554,7 @@ class Emitter:
 
     def emit_function(self, fn):
         self.cur_fn = fn
+        self.pending_dtors[fn['id']] = []
         sig = self.signature(fn)
         body = body_of(fn)
         pre = ''
@@ -560,7 +568,14 @@ class Emitter:
             for ci in inner(fn):
                 if ci.get('kind') == 'CXXCtorInitializer':
                     if 'anyInit' in ci:
-                        nm = ci['anyInit']['name']
+                        nm = ci['anyInit'].get('name') or (self.tu.decls.get(ci['anyInit'].get('id'), {}).get('name'))
+                        if not nm:
+                            raise ExtractError('constructor initialiser for an unnamed member')
+                        if self.is_ref_type(qt(ci['anyInit'])):
+                            ii0 = inner(ci)
+                            pre += '  this_->%s = &(%s);\n' % (nm, self.E(ii0[0]))
+                            inited.add(nm)
+                            continue
                         inited.add(nm)
                         ii = inner(ci)
                         ie = ii[0] if ii else None
@@ -599,6 +614,11 @@ class Emitter:
             post = '  return self_;\n'
             self.lowerings['L-ctor'] += 1
         text = self.S(body, 1, fn)
+        if self.pending_dtors.get(fn['id']):
+            last = inner(body)[-1] if inner(body) else {}
+            if last.get('kind') != 'ReturnStmt':
+                t2 = text.rstrip()
+                text = t2[:-1] + self.dtor_calls(fn, 2) + '  }\n'
         # strip outer braces of the compound to insert pre/post
         assert text.lstrip().startswith('{')
         inner_text = text.strip()[1:-1]
@@ -664,6 +684,7 @@ class Emitter:
         if k == 'ReturnStmt':
             pend = self.opts.get('pre_return')
             extra = pend(self, fn, ind) if pend else ''
+            extra += self.dtor_calls(fn, ind)
             if not ii:
                 return extra + p + 'return;\n'
             e = ii[0]
@@ -713,6 +734,32 @@ class Emitter:
         if k in ('CXXTryStmt', 'CXXThrowExpr', 'SwitchStmt', 'DoStmt', 'GotoStmt', 'LabelStmt'):
             raise ExtractError('unsupported statement ' + k)
         return p + self.E(n) + ';\n'
+
+    def dtor_calls(self, fn, ind):
+        """L-dtor: destructor calls for the function-scope locals with non-trivial destructors that are on the
+        lowering list (detail::scope_exit), in reverse order of construction"""
+        p = '  ' * ind
+        out = ''
+        for (vn, dname, ctype) in reversed(self.pending_dtors.get(fn['id'], [])):
+            out += p + '%s((%s)&%s); /* L-dtor: ~%s at scope exit */\n' % (dname, ctype, vn, vn)
+        return out
+
+    def register_local_dtor(self, d, rec0, fn, ind):
+        disp = self.tu.rec_name.get(rec0['id'], '')
+        if not re.match(r'^(rlbox::)?(detail::)?scope_exit<', disp.replace('rlbox::detail::', '')) and 'scope_exit<' not in disp:
+            return False
+        if ind != 2:
+            raise ExtractError('scope_exit local %s is not at function scope (L-dtor lowers function-scope guards only)' % d['name'])
+        dt = None
+        for fid, f in self.tu.funcs.items():
+            if f['kind'] == 'CXXDestructorDecl' and self.tu.parent_rec.get(fid, {}).get('id') == rec0['id']:
+                dt = f
+        if dt is None:
+            raise ExtractError('destructor of %s not instantiated' % disp)
+        dname = self.need(dt)
+        self.pending_dtors.setdefault(fn['id'], []).append((d['name'], dname, self.cdecl(self.this_ctype(dt))))
+        self.lowerings['L-dtor(scope_exit guard)'] += 1
+        return True
 
     def nrvo_var(self, e):
         if e.get('kind') not in ('CXXConstructExpr',):
@@ -849,7 +896,7 @@ class Emitter:
                 dd = rec0.get('definitionData', {}).get('dtor', {})
                 if dd and not dd.get('trivial') and not dd.get('irrelevant'):
                     hook = self.opts.get('local_dtor')
-                    if not (hook and hook(self, d, rec0, fn)):
+                    if not (self.register_local_dtor(d, rec0, fn, ind) or (hook and hook(self, d, rec0, fn))):
                         raise ExtractError('local %s of type %s has a non-trivial destructor (no lowering)' % (name, t))
         if init is None:
             return p + self.cdecl(ct, name) + ';\n'
@@ -966,7 +1013,19 @@ class Emitter:
         if rk in ('VarTemplateSpecializationDecl',):
             return self.constexpr_var_fact(rd, n)
         if rk in ('VarDecl', 'ParmVarDecl', 'BindingDecl'):
+            crec = self.rec_of(self.cur_fn) if self.cur_fn is not None else None
+            if crec is not None and crec['id'] in self.closures and rd['id'] in self.closures[crec['id']]:
+                fnm, byref = self.closures[crec['id']][rd['id']]
+                self.lowerings['L-lambda(captured variable -> closure field)'] += 1
+                return '(*this_->%s)' % fnm if byref else '(this_->%s)' % fnm
             d = self.tu.decls.get(rd['id'])
+            if d is None and rk == 'VarDecl':
+                # a namespace-scope variable declared outside namespace rlbox (e.g. by an embedder macro)
+                d, _sc = self.tu.find_decl_anywhere(rd['id'])
+                if d is not None and d.get('kind') == 'VarDecl' and 'mangledName' in d:
+                    self.tu.decls[rd['id']] = d
+                    return self.global_ref(d)
+                d = None
             if d is None:
                 raise ExtractError('reference to unknown variable %s' % rd.get('name'))
             if rd['id'] in getattr(self, 'unavailable', ()):
@@ -1023,6 +1082,24 @@ class Emitter:
         return 'mangledName' not in d
 
     def global_ref(self, d):
+        if d.get('constexpr') or 'const' in (qt(d) or ''):
+            ini = [c for c in inner(d) if c.get('kind') not in ('TemplateArgument',)]
+            if d.get('init') and ini:
+                v = self.const_value(ini[-1])
+                t = self.ctype_of(qt(d))
+                if v is not None and t[0] == 'c' and not t[1].startswith('struct'):
+                    self.lowerings['D-const(static constexpr member)'] += 1
+                    return self.int_lit(v, t)
+            prec = self.tu.var_parent.get(d['id'])
+            t = self.ctype_of(qt(d))
+            if prec is not None and d.get('constexpr') and t[0] == 'c' and not t[1].startswith('struct'):
+                disp = self.tu.rec_name.get(prec['id'])
+                if disp and '?' not in disp:
+                    expr = '%s::%s' % (disp, d['name'])
+                    key = 'CXV_' + san(expr)
+                    self.facts.setdefault(key, (expr, self.cdecl(self._strip_top_quals(t))))
+                    self.lowerings['B-fact(static constexpr member)'] += 1
+                    return key
         name = san(d.get('mangledName') or d['name'])
         hook = self.opts.get('global_ref')
         if hook:
@@ -1134,6 +1211,12 @@ class Emitter:
         return '%s(%s)' % (kw, self.cdecl(self.resolve(tt)))
 
     def E_CXXThisExpr(self, n):
+        crec = self.rec_of(self.cur_fn) if self.cur_fn is not None else None
+        if crec is not None and crec['id'] in self.closures:
+            if 'this' not in self.closures[crec['id']]:
+                raise ExtractError('this used in a lambda that does not capture it')
+            self.lowerings['L-lambda(captured this -> closure field)'] += 1
+            return '(this_->%s)' % self.closures[crec['id']]['this'][0]
         return 'this_'
 
     def E_MemberExpr(self, n):
@@ -1151,7 +1234,9 @@ class Emitter:
                 return r
         if d is None:
             raise ExtractError('member %s of non-extracted record' % n.get('name'))
-        nm = n['name']
+        nm = d.get('name') or n['name']
+        if not nm:
+            raise ExtractError('member access to an unnamed field')
         b = self.E(base)
         fld = '%s%s%s' % (b, '->' if n.get('isArrow') else '.', nm)
         if self.is_ref_type(qt(d)):
@@ -1225,6 +1310,8 @@ class Emitter:
         # copy/move construction from the same type
         if len(ii) == 1 and self.is_copy_move_sig(ctor_t, rec):
             ctor = self.find_ctor(rec, ctor_t)
+            if ctor is not None and ctor.get('isImplicit') and rec.get('definitionData', {}).get('isTriviallyCopyable'):
+                ctor = None
             if ctor is None:
                 # implicit/defaulted copy or move: memberwise == struct copy for the records we extract
                 self.require_trivial_copy(rec, ty)
@@ -1463,6 +1550,19 @@ class Emitter:
         cn = self.use_record(rec)
         fields = [f for f in inner(rec) if f.get('kind') == 'FieldDecl']
         caps = ii[1:len(fields) + 1]
+        cmap = {}
+        for f, c in zip(fields, caps):
+            cc = c
+            while cc.get('kind') in ('ImplicitCastExpr', 'ParenExpr') and inner(cc):
+                cc = inner(cc)[0]
+            byref = self.is_ref_type(qt(f))
+            if cc.get('kind') == 'CXXThisExpr':
+                cmap['this'] = (f['name'], False)
+            elif cc.get('kind') == 'DeclRefExpr':
+                cmap[cc['referencedDecl']['id']] = (f['name'], byref)
+            else:
+                raise ExtractError('lambda init-capture / unsupported capture expression ' + str(cc.get('kind')))
+        self.closures[rec['id']] = cmap
         inits = []
         for i, (f, c) in enumerate(zip(fields, caps)):
             ft = qt(f)
